@@ -653,3 +653,145 @@ Section Rename.
         * rewrite D3, D3'. reflexivity.
   Qed.
 End Rename.
+
+(** *** the keys of the shapes *)
+
+(** value classes under the renaming: for the instantiation property the
+    value class names a node (the class IRI for an outgoing link, the typed
+    SUBJECT for an incoming one) and is renamed with it *)
+Definition rvc (sg : str -> str) (tau p : str) (vc : vclass) : vclass :=
+  if str_eqb p tau then match vc with VClass k => VClass (rid sg k) | _ => vc end else vc.
+
+Lemma value_class_rk sg tau p k : value_class tau p [rk sg tau p k] = rvc sg tau p (value_class tau p [k]).
+Proof. unfold value_class, rk, rvc. destruct (str_eqb p tau); reflexivity. Qed.
+
+Lemma key_passes_occ_rename fa sg c thr I g cls inv p vc :
+  bn_renaming sg -> rename_dom (r_tau c) g = true ->
+  (key_passes_occ fa c thr I g cls inv p vc <->
+   key_passes_occ fa c thr (rename_insts sg I) (rename_graph sg g) cls inv p (rvc sg (r_tau c) p vc)).
+Proof.
+  intros Hsg Hg. split.
+  - intros (Hi & k & ck & Hv & Hp & Hf). split; [exact Hi|]. exists (rk sg (r_tau c) p k), ck.
+    rewrite value_class_rk, Hv, (occ_rename sg Hsg _ _ I g cls p k ck Hg), class_count_rename. auto.
+  - intros (Hi & k' & ck & Hv & Hp & Hf). split; [exact Hi|].
+    destruct (occ_rename_pos_inv sg Hsg _ _ I g cls p k' ck Hg Hp) as [k ->]. exists k, ck.
+    rewrite (occ_rename sg Hsg _ _ I g cls p k ck Hg), class_count_rename in *.
+    split; [|auto]. rewrite value_class_rk in Hv. unfold rvc, value_class in *.
+    destruct (str_eqb p (r_tau c)); [|exact Hv].
+    destruct vc as [dt| |k0]; try discriminate Hv. cbn [hd] in *. injection Hv as Hv.
+    apply (rid_inj sg Hsg) in Hv. subst. reflexivity.
+Qed.
+
+Lemma key_passes_occ_rename_inv fa sg c thr I g cls inv p vc' :
+  bn_renaming sg -> rename_dom (r_tau c) g = true ->
+  key_passes_occ fa c thr (rename_insts sg I) (rename_graph sg g) cls inv p vc' ->
+  exists vc, vc' = rvc sg (r_tau c) p vc.
+Proof.
+  intros Hsg Hg (_ & k' & ck & Hv & Hp & _).
+  destruct (occ_rename_pos_inv sg Hsg _ _ I g cls p k' ck Hg Hp) as [k ->].
+  exists (value_class (r_tau c) p [k]). rewrite <- Hv. apply value_class_rk.
+Qed.
+
+(** two successful runs, on a graph and on the graph with its blank nodes
+    renamed (any cap; empty shapes kept): same shapes prefix, the same shape
+    classes in the same order and, class by class, the same name, the same
+    header count and the same keys, those of the instantiation property
+    renamed with the nodes *)
+Theorem e2e_keys_rename fa sg c thr g ns shapes ns' shapes' :
+  bn_renaming sg -> rename_dom (r_tau c) g = true -> r_remove_empty c = false ->
+  run_shapes fa c thr g = inl (ns, shapes) -> run_shapes fa c thr (rename_graph sg g) = inl (ns', shapes') ->
+  ns' = ns /\
+  map sh_class shapes' = map sh_class shapes /\
+  forall sh sh', In sh shapes -> In sh' shapes' -> sh_class sh = sh_class sh' ->
+    sh_name sh = sh_name sh' /\ sh_n sh = sh_n sh' /\
+    (forall inv p vc, In (inv, p, vc) (map (skey (scfg_of c ns)) (sh_stmts sh)) <->
+                      In (inv, p, rvc sg (r_tau c) p vc) (map (skey (scfg_of c ns)) (sh_stmts sh'))) /\
+    (forall inv p vc', In (inv, p, vc') (map (skey (scfg_of c ns)) (sh_stmts sh')) ->
+                       exists vc, vc' = rvc sg (r_tau c) p vc).
+Proof.
+  intros Hsg Hg Hre H H'.
+  assert (Ens : ns' = ns).
+  { apply run_shapes_decompose in H, H'. destruct H as (_ & _ & _ & _ & A & _). destruct H' as (_ & _ & _ & _ & A' & _).
+    congruence. }
+  subst ns'. split; [reflexivity|].
+  destruct (e2e_figures fa c thr g ns shapes H) as (J & HTJ & HF).
+  destruct (e2e_figures fa c thr _ ns shapes' H') as (J' & HTJ' & HF').
+  destruct (e2e_keys_iff_occ fa c thr g ns shapes Hre H) as (I & HT & HC & HK).
+  destruct (e2e_keys_iff_occ fa c thr _ ns shapes' Hre H') as (I' & HT' & HC' & HK').
+  assert (J = I) by congruence. assert (J' = I') by congruence. subst J J'.
+  pose proof (track_rename sg Hsg (r_tau c) (mode_of c) (r_cap c) g Hg) as HTR. rewrite HT, HT' in HTR.
+  cbn [map_inl] in HTR. injection HTR as ->.
+  split; [rewrite HC, HC'; apply class_keys_rename|].
+  intros sh sh' Hsh Hsh' Ecls.
+  destruct (HK sh Hsh) as (En & Hk & _). destruct (HK' sh' Hsh') as (En' & Hk' & _).
+  destruct (HF sh Hsh) as (_ & Enm & _). destruct (HF' sh' Hsh') as (_ & Enm' & _).
+  split; [rewrite Enm, Enm', Ecls; reflexivity|].
+  split; [rewrite En, En', Ecls; symmetry; apply class_count_rename|]. split.
+  - intros inv p vc. rewrite Hk, Hk', Ecls. apply key_passes_occ_rename; assumption.
+  - intros inv p vc' Hin. apply Hk' in Hin. apply (key_passes_occ_rename_inv fa sg c thr I g _ inv p vc' Hsg Hg Hin).
+Qed.
+
+(** without inverse paths no key names a blank node: the key sets are equal *)
+Lemma direct_tau_key_not_bn tau I g cls k ck :
+  rename_dom tau g = true -> 0 < occ Direct tau I g cls tau k ck -> bn_pref k = false.
+Proof.
+  intros Hg H. assert (H' : exists card, 0 < occ Direct tau I g cls tau k card) by eauto.
+  apply occ_pos_iff in H'. destruct H' as (i & cs & _ & _ & Hc).
+  unfold cnt in Hc. apply sumN_pos_ex in Hc. destruct Hc as [x [Hx Hpos]].
+  apply in_map_iff in Hx. destruct Hx as [t [<- Ht]]. apply In_count_in in Hpos.
+  unfold rename_dom in Hg. rewrite forallb_forall in Hg. destruct (rename_ok_parts (fun s => s) tau t (Hg t Ht)) as (_ & _ & D).
+  unfold contrib in Hpos. destruct (str_eqb (nid (ts t)) i && str_eqb (tp t) tau) eqn:E; [|destruct Hpos].
+  apply andb_true_iff in E. destruct E as [_ E]. unfold keys_direct in Hpos. rewrite E in Hpos.
+  destruct (to t) as [o|l dt] eqn:Eo; [|destruct Hpos].
+  destruct Hpos as [<-|Hin]; [apply (D o eq_refl E)|].
+  destruct (str_eqb (nid o) c_IRI_ELEM_TYPE || str_eqb (nid o) c_BNODE_ELEM_TYPE); [|destruct Hin].
+  unfold shape_labels in Hin. apply in_map_iff in Hin. destruct Hin as [u [<- _]]. apply shape_name_not_bn.
+Qed.
+
+Theorem e2e_keys_rename_direct fa sg c thr g ns shapes ns' shapes' :
+  bn_renaming sg -> rename_dom (r_tau c) g = true -> r_remove_empty c = false -> r_inverse c = false ->
+  run_shapes fa c thr g = inl (ns, shapes) -> run_shapes fa c thr (rename_graph sg g) = inl (ns', shapes') ->
+  ns' = ns /\
+  map sh_class shapes' = map sh_class shapes /\
+  forall sh sh', In sh shapes -> In sh' shapes' -> sh_class sh = sh_class sh' ->
+    sh_name sh = sh_name sh' /\ sh_n sh = sh_n sh' /\
+    forall key, In key (map (skey (scfg_of c ns)) (sh_stmts sh)) <->
+                In key (map (skey (scfg_of c ns)) (sh_stmts sh')).
+Proof.
+  intros Hsg Hg Hre Hinv H H'.
+  destruct (e2e_keys_rename fa sg c thr g ns shapes ns' shapes' Hsg Hg Hre H H') as (E1 & E2 & E3).
+  split; [exact E1|]. split; [exact E2|]. intros sh sh' Hsh Hsh' Ecls.
+  destruct (E3 sh sh' Hsh Hsh' Ecls) as (A & B & K1 & K2). split; [exact A|]. split; [exact B|].
+  destruct (e2e_keys_iff_occ fa c thr g ns shapes Hre H) as (I & HT & _ & HK).
+  destruct (HK sh Hsh) as (_ & Hk & _).
+  (* a key of the original run is fixed by the renaming *)
+  assert (Hfix : forall inv p vc, In (inv, p, vc) (map (skey (scfg_of c ns)) (sh_stmts sh)) ->
+                                  rvc sg (r_tau c) p vc = vc).
+  { intros inv p vc Hin. apply Hk in Hin. destruct Hin as (Hi & k & ck & Hv & Hp & _).
+    destruct inv; [specialize (Hi eq_refl); congruence|]. cbn [dir_of] in Hp.
+    unfold rvc. destruct (str_eqb p (r_tau c)) eqn:Ep; [|reflexivity].
+    apply str_eqb_eq in Ep. subst p. unfold value_class in Hv. rewrite str_eqb_refl in Hv. cbn [hd] in Hv. subst vc.
+    rewrite (rid_fixed sg k (direct_tau_key_not_bn _ I g _ k ck Hg Hp)). reflexivity. }
+  intros [[inv p] vc]. split.
+  - intros Hin. rewrite <- (Hfix inv p vc Hin). apply K1. exact Hin.
+  - intros Hin. destruct (K2 inv p vc Hin) as [vc0 ->]. pose proof (proj2 (K1 inv p vc0) Hin) as Hin0.
+    rewrite (Hfix inv p vc0 Hin0). exact Hin0.
+Qed.
+
+Lemma rename_dom_unfold tau g :
+  rename_dom tau g = true <->
+  forall t, In t g ->
+    marked_node (ts t) = true /\
+    (forall o, to t = ON o -> marked_node o = true /\ (tp t = tau -> nk o = KIri)).
+Proof.
+  unfold rename_dom. rewrite forallb_forall. split; intros H t Ht; specialize (H t Ht).
+  - unfold rename_ok, marked_triple, class_obj_ok in H. apply andb_true_iff in H. destruct H as [H1 H2].
+    apply andb_true_iff in H1. destruct H1 as [Hs Ho]. split; [exact Hs|]. intros o Eo. rewrite Eo in *.
+    split; [exact Ho|]. intros Et. rewrite Et, str_eqb_refl in H2. cbn [negb orb] in H2.
+    destruct o as [[|] id]; [reflexivity | discriminate H2].
+  - destruct H as [Hs Ho]. unfold rename_ok, marked_triple, class_obj_ok. rewrite Hs. cbn [andb].
+    destruct (to t) as [o|l dt]; [|rewrite orb_true_r; reflexivity].
+    destruct (Ho o eq_refl) as [H1 H2]. rewrite H1. cbn [andb].
+    destruct (str_eqb (tp t) tau) eqn:Et; [|reflexivity]. apply str_eqb_eq in Et. specialize (H2 Et).
+    destruct o as [[|] id]; [reflexivity | discriminate H2].
+Qed.
